@@ -16,9 +16,16 @@ def consts_pascal(txt):
     return [[m.group(1), m.group(2), "?"] for m in re.finditer(r"^\s*(\w+)\s*=\s*([-+0-9.eE]+|[A-Za-z_]\w*)\s*;", txt, flags=re.M)]
 
 
+def idl_number(tok):
+    """an IDL numeric literal in the decimal syntax every other fact uses: 1.5D-3 -> 1.5E-3, 0.5D -> 0.5 (lexical normalisation, no arithmetic)"""
+    m = re.fullmatch(r"([-+]?[0-9][0-9.]*)[dD]([-+]?[0-9]*)", tok)
+    if not m: return tok
+    return m.group(1) + ("E" + m.group(2) if m.group(2) else "")
+
+
 def consts_idl(txt):
     txt = re.sub(r";[^\n]*", "", txt)
-    return [[m.group(1), m.group(2), "?"] for m in re.finditer(r"^\s*(\w+)\s*=\s*([-+]?[0-9][0-9.eEdD+-]*|[A-Za-z_]\w*)\s*$", txt, flags=re.M)]
+    return [[m.group(1), idl_number(m.group(2)), "?"] for m in re.finditer(r"^\s*(\w+)\s*=\s*([-+]?[0-9][0-9.eEdD+-]*|[A-Za-z_]\w*)\s*$", txt, flags=re.M)]
 
 
 def consts_java(txt):
@@ -86,15 +93,54 @@ def protos_pascal(txt):
     return res
 
 
+def enum_c(txt, name):
+    """typedef enum { A, B = 3, C } name;  ->  [[A, ""], [B, "3"], [C, ""]]  (values as written; numbering is the spec's business)"""
+    txt = strip_comments(txt)
+    m = re.search(r"typedef\s+enum\s*(?:\w+\s*)?\{([^}]*)\}\s*%s\s*;" % name, txt)
+    if not m: return []
+    return [[p.split("=")[0].strip(), (p.split("=")[1].strip() if "=" in p else "")] for p in m.group(1).split(",") if p.strip()]
+
+
+def enum_fortran(txt, first):
+    txt = re.sub(r"![^\n]*", "", txt)
+    for m in re.finditer(r"ENUM\s*,\s*BIND\s*\(\s*C\s*\)(.*?)END\s*ENUM", txt, flags=re.S | re.I):
+        items = []
+        for e in re.finditer(r"ENUMERATOR\s*(?:::)?\s*([^\n]+)", m.group(1), flags=re.I):
+            for p in e.group(1).split(","):
+                if p.strip(): items.append([p.split("=")[0].strip(), (p.split("=")[1].strip() if "=" in p else "")])
+        if items and items[0][0].upper() == first.upper(): return items
+    return []
+
+
+def enum_pascal(txt, name):
+    txt = re.sub(r"\{[^}]*\}|//[^\n]*", " ", txt)
+    m = re.search(r"\b%s\s*=\s*\(([^)]*)\)\s*;" % name, txt, flags=re.I)
+    if not m: return []
+    return [[p.split("=")[0].strip(), (p.split("=")[1].strip() if "=" in p else "")] for p in m.group(1).split(",") if p.strip()]
+
+
+def idl_dlm(txt):
+    """IDL dynamically loadable module description:  FUNCTION NAME min max  /  PROCEDURE NAME min max"""
+    return [[m.group(1).upper(), m.group(2), m.group(3), m.group(4)] for m in re.finditer(r"^(FUNCTION|PROCEDURE)\s+(\w+)\s+(\d+)\s+(\d+)", txt, flags=re.M)]
+
+
+def libtool(txt, pats):
+    return [(re.search(p, txt, flags=re.M).group(1) if re.search(p, txt, flags=re.M) else "") for p in pats]
+
+
 def run(repo, root, out):
     R = lambda *p: open(os.path.join(repo, *p), errors="replace").read()
     b = {}
     b["fortran"] = {"consts": consts_fortran(R("fortran", "xraylib_wrap.F90")), "protos": protos_fortran(R("fortran", "xraylib_wrap.F90") + "\n" + R("fortran", "xraylib_wrap_generated.F90"))}
-    b["pascal"] = {"consts": consts_pascal(R("pascal", "xraylib_const.pas")), "protos": protos_pascal(R("pascal", "xraylib.pas") + "\n" + R("pascal", "xraylib_impl.pas"))}
+    b["pascal"] = {"consts": consts_pascal(R("pascal", "xraylib_const.pas")) + [c for c in consts_pascal(R("pascal", "xraylib.pas")) if c[0].isupper() or c[0].startswith("XRAYLIB")],
+                   "protos": protos_pascal(R("pascal", "xraylib.pas") + "\n" + R("pascal", "xraylib_impl.pas"))}
+    b["enums"] = {"c": enum_c(R("include", "xraylib-error.h"), "xrl_error_code"), "fortran": enum_fortran(R("fortran", "xraylib_wrap.F90"), "XRL_ERROR_MEMORY"), "pascal": enum_pascal(R("pascal", "xraylib.pas"), "xrl_error_code")}
+    b["libtool"] = {"configure.ac": libtool(R("configure.ac"), [r"^LIB_CURRENT=(\d+)", r"^LIB_REVISION=(\d+)", r"^LIB_AGE=(\d+)"]),
+                    "meson.build": libtool(R("meson.build"), [r"^lib_current\s*=\s*(\d+)", r"^lib_revision\s*=\s*(\d+)", r"^lib_age\s*=\s*(\d+)"])}
     idl = []
     for f in ["xraylib.pro", "xraylib_lines.pro", "xraylib_shells.pro", "xraylib_auger.pro", "xraylib_nist_compounds.pro", "xraylib_radionuclides.pro"]:
         idl += consts_idl(R("idl", f))
-    b["idl"] = {"consts": idl}
+    b["idl"] = {"consts": idl, "dlm": idl_dlm(R("idl", "libxrlidl.dlm"))}
     jc, jd = consts_java(R("java", "Xraylib.java"))
     b["java"] = {"consts": jc, "decl": jd}
     pxd = R("python", "xraylib_np_c.pxd")
